@@ -63,7 +63,8 @@ ASSUMPTIONS = [
     'FILL arrays: numbers, nR, nI, xM, nJ are modelled; LOG / ILOG are not '
     '(EUnsupported: they need a float power, which neither Base.Scalar nor '
     'the environment record — frozen, C14 builds it positionally — provides); '
-    'array sizes > 0',
+    'array size 0 is outside (the code then deletes every remaining token); '
+    'a negative size is modelled (ParseMCNPCellError)',
     'the card-construction theorems hold where Canon.canon_card is defined: '
     'undefined for a stray number after a keyword that is read, for a '
     'material without a density (C15_explicit_card_has_density: no such '
